@@ -378,10 +378,17 @@ def mon_close(run):
     if not oks:
         return bad
     t0 = oks[0]["ret"]
+    first_poll = {}
+    for o in ops:
+        t = o["op"].split(" ")
+        if t[0] in ("polls", "pollr"):
+            first_poll.setdefault((o["tid"], t[0], t[1]), o["call"])
     for o in ops:
         if o["call"] <= t0 or o["ret"] is None:
             continue
         k = o["op"].split(" ")[0]
+        if k in ("polls", "pollr") and first_poll.get((o["tid"], k, o["op"].split(" ")[1]), o["call"]) <= t0:
+            continue      # the operation began (was first polled) before the close returned: it may still report what happened before it
         r = o["res"]
         if k == "close" and not r.startswith("err:CloseError"):
             bad.append(f"close after close returned {r}")
